@@ -7,6 +7,7 @@ import (
 	"sort"
 	"strings"
 
+	orbitdb "berty.tech/go-orbit-db"
 	"berty.tech/go-orbit-db/stores/replicator"
 	datastore "github.com/ipfs/go-datastore"
 	"github.com/libp2p/go-libp2p/core/peer"
@@ -20,6 +21,8 @@ type NetWorld struct {
 	*Writers
 	budget struct{ writes, faults, cuts, restarts int }
 	wcount int
+	// down[i]: replica i's store is closed while its instance (and direct channel) keeps running
+	down map[int]bool
 }
 
 type C02Arg struct {
@@ -97,7 +100,9 @@ func (w *NetWorld) Enabled() []string {
 	}
 	if w.budget.writes > 0 {
 		for i := range w.Stores {
-			out = append(out, fmt.Sprintf("write:%d", i))
+			if !w.down[i] {
+				out = append(out, fmt.Sprintf("write:%d", i))
+			}
 		}
 	}
 	if w.budget.faults > 0 {
@@ -127,7 +132,16 @@ func (w *NetWorld) Enabled() []string {
 	}
 	if w.budget.restarts > 0 {
 		for i := range w.Stores {
-			out = append(out, fmt.Sprintf("restart:%d", i))
+			if !w.down[i] {
+				out = append(out, fmt.Sprintf("restart:%d", i))
+				// the store alone is closed and opened again later: messages for it may reach the running instance meanwhile
+				out = append(out, fmt.Sprintf("closestore:%d", i))
+			}
+		}
+	}
+	for i := range w.Stores {
+		if w.down[i] {
+			out = append(out, fmt.Sprintf("openstore:%d", i))
 		}
 	}
 	return out
@@ -178,6 +192,18 @@ func (w *NetWorld) Do(a string) error {
 		if err := w.Restart(int(arg[0]-'0'), false); err != nil {
 			return err
 		}
+	case "closestore":
+		w.budget.restarts--
+		i := int(arg[0] - '0')
+		if w.down == nil {
+			w.down = map[int]bool{}
+		}
+		w.down[i] = true
+		_ = w.Stores[i].Close()
+	case "openstore":
+		if err := w.openStore(int(arg[0] - '0')); err != nil {
+			return err
+		}
 	default:
 		return fmt.Errorf("unknown action %q", a)
 	}
@@ -195,6 +221,10 @@ func (w *NetWorld) Key() string {
 	}
 	fmt.Fprintf(&b, " budget=%v", w.budget)
 	for i, s := range w.Stores {
+		if w.down[i] {
+			fmt.Fprintf(&b, " %d:store-closed", i)
+			continue
+		}
 		for _, k := range []string{"_localHeads", "_remoteHeads"} {
 			raw, _ := s.Cache().Get(bg, datastore.NewKey(k))
 			h := sha256.Sum256(raw)
@@ -208,9 +238,30 @@ func (w *NetWorld) Key() string {
 	return b.String()
 }
 
+// openStore opens replica i's database again on its running instance and loads it from the cache.
+func (w *NetWorld) openStore(i int) error {
+	s, err := w.Inst[i].DB.Open(bg, w.Addr, &orbitdb.CreateDBOptions{Replicate: boolp(true)})
+	if err != nil {
+		return err
+	}
+	w.Stores[i] = s
+	delete(w.down, i)
+	if err := s.Load(bg, -1); err != nil {
+		w.Report(explore.Violation{Signature: "load-error", Detail: fmt.Sprintf("replica %d after closing and opening its store: %v", i, err)})
+	}
+	return sim.Quiesce()
+}
+
 // FinalPhase: heal every link, deliver everything with no further fault, then every replica must hold
 // every acknowledged write and all must show the same state.
 func (w *NetWorld) FinalPhase() []explore.Violation {
+	for i := range w.Stores {
+		if w.down[i] {
+			if err := w.openStore(i); err != nil {
+				return []explore.Violation{{Signature: "final-phase-reopen-failed", Detail: err.Error()}}
+			}
+		}
+	}
 	// "peers reconnect": every pair goes through a (re)connection, so that each side observes the other
 	// joining the topic, as the property's final phase states
 	for _, p := range w.pairs() {
@@ -296,6 +347,8 @@ func init() {
 			}
 			u = append(u, mk(C02Arg{DFSArg: DFSArg{Kind: "eventlog", Writers: 2, Depth: 5}, Writes: 2, Faults: 1, Cuts: 1, Restarts: 1}, 32)...)
 			u = append(u, mk(C02Arg{DFSArg: DFSArg{Kind: "eventlog", Writers: 3, Depth: 4}, Writes: 2, Faults: 1, Cuts: 1, Restarts: 0}, 32)...)
+			// three writes reach merge entries (an entry with two predecessors written after a merge), one message fault
+			u = append(u, mk(C02Arg{DFSArg: DFSArg{Kind: "eventlog", Writers: 2, Depth: 6}, Writes: 3, Faults: 1, Cuts: 0, Restarts: 0}, 32)...)
 			return u
 		},
 		Budget: func(tier string) float64 {
